@@ -14,6 +14,10 @@ var collEnum = vkit.NewCollector("C16", "TestEnumSmall", "complete enumeration o
 
 var collDuring = vkit.NewCollector("C16", "TestReplayWhileWriting", "a registry writer arrives while an upcasting replay is inside an upcast function: 1-6 set-up registrations over 2-5 names (faithful, failing - biased -, type-deviating upcasters), one stored event per name; the k-th upcaster application starts RegisterUpcastFunc (unrelated names) / ClearUpcasts / ClearUpcastsForType on another goroutine, lingers 0-2 ms without synchronising with it and then returns or fails as registered; upcast error handler installed or not; race detector on. Oracle: the replay and the writer both return (a hang must reproduce twice), no upcaster budget overrun, every stored event reaches the callback once. Non-trivial = the writer was started.")
 
+var collLong = vkit.NewCollector("C16", "TestLongChains", "a chain n0->n1->...->nL of 3-130 steps registered oldest- or newest-first, then 1-6 further registrations between drawn levels (biased to the longest spans, from the end of the chain back to its start). Oracle = reachability over the chain and the accepted extra edges: a registration is rejected exactly when source == target or the target already reaches the source, however long that path is. Non-trivial = a back edge spanning more than 32 steps.")
+
+func TestLongChains(t *testing.T) { vkit.Check(t, collLong, GenLong, RunLong) }
+
 func TestMain(m *testing.M) { vkit.Main(m) }
 
 func TestSequences(t *testing.T)          { vkit.Check(t, collSeq, Gen, Run) }
@@ -58,5 +62,5 @@ func TestEnumSmall(t *testing.T) {
 
 func TestReplay(t *testing.T) {
 	r := vkit.NeedReplay(t)
-	_ = vkit.ReplayCase(t, r, collSeq, Run) || vkit.ReplayCase(t, r, collEnum, Run) || vkit.ReplayCase(t, r, collPair, RunPair) || vkit.ReplayCase(t, r, collDuring, RunDuring)
+	_ = vkit.ReplayCase(t, r, collSeq, Run) || vkit.ReplayCase(t, r, collEnum, Run) || vkit.ReplayCase(t, r, collPair, RunPair) || vkit.ReplayCase(t, r, collDuring, RunDuring) || vkit.ReplayCase(t, r, collLong, RunLong)
 }
